@@ -4,7 +4,7 @@ from tools import common, worldcheck, recordings, gen_const, synth, gen_types
 LEVEL = 'proof'
 
 
-def sweep(ctx, dialect, maxn, exh, elem=None, shape='A'):
+def sweep(ctx, dialect, maxn, exh, elem=None, shape='A', debug_log=False):
     rng = ctx.rng
     ds = synth.sweep_defset(elem=elem or rng.choice([('u', 2), ('u', 1), ('i', 4), ('string',), ('vec', 12)]), shape=shape)
     d = synth.write_defset(ds, rng)
@@ -12,7 +12,9 @@ def sweep(ctx, dialect, maxn, exh, elem=None, shape='A'):
         pl = synth.make_player(dialect, d); view = synth.LibView(pl)
         h = synth.SweepHistory(rng, dialect, view).build(maxn, exh)
         st = h.stream(); snaps = {}
-        lib, subs = synth.run_library(dialect, d, st, snap_eid=h.snap_eid, snaps_out=snaps)
+        if debug_log:
+            with common.debug_logging(): lib, subs = synth.run_library(dialect, d, st, snap_eid=h.snap_eid, snaps_out=snaps)      # the log level must not change what is applied
+        else: lib, subs = synth.run_library(dialect, d, st, snap_eid=h.snap_eid, snaps_out=snaps)
         mod = synth.run_model(dialect, d, st, subs)
         focus = worldcheck.FOCUS['C06']
         a, b = worldcheck.select(lib, focus), worldcheck.select(mod, focus)
@@ -73,6 +75,7 @@ def run(ctx):
     ok = True
     for k, dialect in enumerate(('wows', 'wot') if q else ('wows', 'wows126', 'wot')):
         ok &= sweep(ctx, dialect, 40, 4 if q else 6, elem=(('u', 1), ('u', 2))[k % 2] if k < 2 else None)     # one-/two-byte elements: the grown-list phase runs
+    ok &= sweep(ctx, 'wows', 10, 3, elem=('u', 2), debug_log=True)
     ok &= sweep(ctx, 'wows', 12, 3, elem=('u', 2), shape='B')      # an entity with a BASE_AND_CLIENT property: 5 exposed / 4 own-client properties
     ctx.obligation('correspondence: library = extracted model on the nested sweeps', ok)
     for n in (122, 123, 124, 125, 130, 200, 249, 250): big_payload(ctx, n)     # payload lengths 126..254 around the signed-byte boundary
